@@ -192,6 +192,14 @@ fn main() {
     let mut members: Vec<String> = vec![];
     let mut built: Vec<(String, String, String)> = vec![];
     let mut rejected: Vec<String> = vec![];
+    // diagnostics of an earlier run
+    if let Ok(rd) = std::fs::read_dir(&cases) {
+        for e in rd.flatten() {
+            if e.file_name().to_string_lossy().ends_with(".build-error.txt") {
+                let _ = std::fs::remove_file(e.path());
+            }
+        }
+    }
     for c in &corpora {
         if c.proto {
             proto_corpus(&root, &cases, &pbuild, c, &mut members, &mut built, &mut rejected);
